@@ -13,6 +13,9 @@ theorem KF1_witness_types : ¬ C17_types_eq_xlsx_full := by
 theorem dedupe_exact : Xlsx.types.flatMap TypeRow.droppedRows = r7Dropped := by
   decide +kernel
 
+theorem dedupe_eq_listed : Xlsx.types.map TypeRow.dedupe = Xlsx.types.map (TypeRow.dropListed r7Dropped) := by
+  decide +kernel
+
 theorem dedupe_aliases_survive : ∀ t ∈ Xlsx.types, t.aliasesSurvive = true := by
   decide +kernel
 
